@@ -4,6 +4,9 @@ From Verif Require Import Base.SetList Base.Terms Base.Vocab Paths.Path Shapes.A
 Import ListNotations.
 
 (* ---------------- monad plumbing ---------------- *)
+Section WithTrig.
+Variable trig : trig_t.
+
 Lemma bind_ok {A B} (r:res A) (k:A -> res B) b : bind r k = Ok b -> exists a, r = Ok a /\ k a = Ok b.
 Proof. destruct r; simpl; [eauto|discriminate]. Qed.
 
@@ -75,7 +78,7 @@ Proof.
 Qed.
 
 Lemma evalc_good nested g E s fvs ep c cr :
-  nested_good nested -> evalc nested g E s fvs ep c = Ok cr -> good cr.
+  nested_good nested -> evalc trig nested g E s fvs ep c = Ok cr -> good cr.
 Proof.
   intros Hn. destruct c; cbn [evalc].
   - intros [= <-]. apply reported_good.
@@ -121,12 +124,12 @@ Proof.
 Qed.
 
 Theorem vshape_good o g E : forall fuel ep s foci cr,
-  vshape fuel o g E false ep s foci = Ok cr -> good cr.
+  vshape trig fuel o g E false ep s foci = Ok cr -> good cr.
 Proof.
-  induction fuel as [|fuel IH]; intros ep s foci cr; cbn [vshape]; [discriminate|].
-  destruct (deact s); [intros [= <-]; apply trivially_good|].
-  destruct (isnil foci); [intros [= <-]; apply trivially_good|].
-  destruct (_ && _); [discriminate|].
+  induction fuel as [|fuel IH]; intros ep s foci cr; cbn [vshape];
+    (destruct (deact s); [intros [= <-]; apply trivially_good|]);
+    (destruct (isnil foci); [intros [= <-]; apply trivially_good|]);
+    (destruct (_ && _); [discriminate|]); [discriminate|].
   intros H. apply bind_ok in H as (fvs & _ & H).
   eapply loop_good; [|split; reflexivity|exact H].
   intros c r. apply evalc_good. intros s' v ep' cr'. apply IH.
@@ -167,18 +170,18 @@ Proof.
 Qed.
 
 Theorem vshape_top_verdict o g E fuel s foci cr :
-  vshape fuel o g E true [] s foci = Ok cr -> fst cr = all_waived o (snd cr).
+  vshape trig fuel o g E true [] s foci = Ok cr -> fst cr = all_waived o (snd cr).
 Proof.
-  destruct fuel as [|fuel]; cbn [vshape]; [discriminate|].
-  destruct (deact s); [intros [= <-]; reflexivity|].
-  destruct (isnil foci); [intros [= <-]; reflexivity|].
-  cbn [negb andb]. intros H. apply bind_ok in H as (fvs & _ & H).
+  destruct fuel as [|fuel]; cbn [vshape];
+    (destruct (deact s); [intros [= <-]; reflexivity|]);
+    (destruct (isnil foci); [intros [= <-]; reflexivity|]);
+    cbn [negb andb]; [discriminate|]. intros H. apply bind_ok in H as (fvs & _ & H).
   refine (loop_top_verdict o s _ _ (scomps s) false false [] cr eq_refl H).
   intros c r. apply evalc_good. intros s' v ep' cr'. apply vshape_good.
 Qed.
 
 Lemma validate_top_verdict o sg g E s explicit cr :
-  validate_top o sg g E s explicit = Ok cr -> fst cr = all_waived (eopts_of o) (snd cr).
+  validate_top trig o sg g E s explicit = Ok cr -> fst cr = all_waived (eopts_of o) (snd cr).
 Proof.
   unfold validate_top. destruct (deact s); [intros [= <-]; reflexivity|].
   destruct explicit as [foci|].
@@ -190,7 +193,7 @@ Qed.
 
 Lemma run_shapes_verdict o sg g E explicit : forall shapes nc acc cr,
   nc = negb (all_waived (eopts_of o) acc) ->
-  run_shapes o sg g E shapes explicit nc acc = Ok cr -> fst cr = all_waived (eopts_of o) (snd cr).
+  run_shapes trig o sg g E shapes explicit nc acc = Ok cr -> fst cr = all_waived (eopts_of o) (snd cr).
 Proof.
   induction shapes as [|s rest IH]; intros nc acc cr Hinv; cbn [run_shapes].
   - intros [= <-]. simpl. rewrite Hinv, negb_involutive. reflexivity.
@@ -205,15 +208,17 @@ Qed.
 (* The verdict is 'conforms' exactly when every reported top-level result has a waived
    severity; with no waiver: exactly when there is no result. Holds with and without abort_on_first. *)
 Theorem validate_verdict o sg g E c rs :
-  validate o sg g E = Ok (c, rs) -> c = all_waived (eopts_of o) rs.
+  validate trig o sg g E = Ok (c, rs) -> c = all_waived (eopts_of o) rs.
 Proof. intros H. apply (run_shapes_verdict o sg g E None E false [] (c, rs) eq_refl H). Qed.
 
 Corollary validate_verdict_default o sg g E c rs :
   allow_infos o = false -> allow_warnings o = false ->
-  validate o sg g E = Ok (c, rs) -> (c = true <-> rs = []).
+  validate trig o sg g E = Ok (c, rs) -> (c = true <-> rs = []).
 Proof.
   intros Hi Hw H. apply validate_verdict in H. subst c.
   destruct rs as [|r rs]; [simpl; tauto|].
   rewrite all_waived_none; [split; discriminate| |discriminate].
   unfold eopts_of, allowed_severities. simpl. rewrite Hi, Hw. reflexivity.
 Qed.
+
+End WithTrig.
